@@ -95,6 +95,8 @@ def run(an: Analysis, rep):
     from . import c05
     rep.run(c05.r053, an, SharedRules(rep, "R03.D", "docstring slot (shared with C05's R05.3): a function described with docstring None must not get its first string constant read as __doc__"))
     rep.run(c10.format_rules, an, SharedRules(rep, "R03.L", "line-table format constants (shared with C10's R10.*): 'each instruction carries the given line'"))
+    from .common import rejection_paths_rule
+    rep.run(rejection_paths_rule, an, rep, "R03.R", ["to_code"], ENCODER_REJECTIONS, "to_code")
     rep.run(c02.r028, an, SharedRules(rep, "R03.X", "the package's parser reassembles operands from their EXTENDED_ARG prefixes as CPython does (shared with C02's R02.8): 'decoding that code object again gives data equal to the input'"))
     rep.run(c02.jump_rules, an, SharedRules(rep, "R03.J", "jump operands are measured as CPython measures them (shared with C02's R02.3/R02.4): 'every jump lands on the first instruction of its target block'"))
     sh = SharedRules(rep, "R03.A", "signature encoding: co_varnames layout, counts and flags (shared with C04's R04.3/R04.4): 'signature ... as described'")
@@ -102,6 +104,21 @@ def run(an: Analysis, rep):
     rep.run(c04.r044, an, sh)
     rep.stats.update(an.stats([an.interp("to_code", V)[0] for V in VERSIONS]))
     rep.assumptions += ["`python -O` is covered: R03.G / R11.A require that no guard of the API closures is an assert statement"]
+
+
+# Places where the encoder stops with an exception, confirmed by reading: (function, exception) -> (how many, why / which rule decides reachability).
+ENCODER_REJECTIONS = {
+    ("code_data._blocks::FromArgs.__setitem__", "AssertionError"):
+        (1, "two different entries claim one table position: the colliding overrides the property wants rejected (R03.2 / R03.3 decide the test)"),
+    ("code_data._blocks::FromArgs.to_tuple", "ValueError"):
+        (1, "the overrides leave a gap in the table: the inconsistent overrides the property wants rejected (R03.1 decides the test over index-map models)"),
+    ("code_data._code_data::from_code_data", "AssertionError"):
+        (1, "co_varnames does not start with the parameter names: cannot happen when the variable table is seeded in layout order (C04's R04.4, shared as R03.A)"),
+    ("code_data._code_data::from_code_data", "NotImplementedError"):
+        (1, "positional-only parameters on an interpreter without co_posonlyargcount (3.7): such data cannot be described there"),
+    ("code_data._constants::inner_constant_key", "NotImplementedError"):
+        (1, "fall-through of the dispatch over constant types: R03.4 shows every constant type of the data model has an arm"),
+}
 
 
 def _index_map_attr(ci: ClassInfo) -> str:
